@@ -48,10 +48,24 @@ theorem encName_injective (a b : Bytes) (h : encName a = encName b) : a = b := b
   rw [b32_upper_lower, b32_upper_lower] at this
   exact encode_injective b32s b32s_wf a b this
 
+/-- on encoder output Go's decoder (`decodeStd32`) agrees with the bit-level decoder: the encoded
+length is never 3 or 6 modulo 8 -/
+theorem decodeStd32_encode (name : Bytes) : decodeStd32 (encode b32s name) = some name := by
+  have hd := decode_encode b32s b32s_wf name
+  have hl := b32s_length name
+  unfold decodeStd32
+  cases hm : mapOpt b32s.decDigit (encode b32s name) with
+  | none => simp [decode, hm] at hd
+  | some ds =>
+    have h3 : ¬ ((encode b32s name).length % 8 = 3 ∨ (encode b32s name).length % 8 = 6) := by
+      rw [hl]; omega
+    simp only [h3, if_false]
+    exact hd
+
 theorem decodeName_encName (name : Bytes) : decodeName (encName name) = some name := by
   unfold decodeName
   rw [encName_prefix]
-  simp only [if_true, encName, List.drop_left, b32_upper_lower, decode_encode b32s b32s_wf]
+  simp only [if_true, encName, List.drop_left, b32_upper_lower, decodeStd32_encode]
 
 /-- a key file name is never "." or ".." and has no path separator -/
 theorem encName_component (name : Bytes) :
@@ -93,7 +107,7 @@ theorem childName_fpath (cfg : Cfg) (name : Bytes) : FS.childName cfg.dir (fpath
 /-- the keystore directory holds exactly one file per key of the in-memory map, named by `encName`,
 with the key bytes as content; all names are within the property's quantifier -/
 def Sim (cfg : Cfg) (fs : FS) (m : Mem) : Prop :=
-  fs.files = AMap.mapKey (fpath cfg) m ∧ ∀ n ∈ AMap.keys m, ValidName cfg n
+  (fs.files = AMap.mapKey (fpath cfg) m ∧ fs.foreign = []) ∧ ∀ n ∈ AMap.keys m, ValidName cfg n
 
 def Op.name? : Op → Option Bytes
   | .has n => some n
@@ -106,7 +120,17 @@ def ValidOp (cfg : Cfg) (op : Op) : Prop := ∀ n, op.name? = some n → ValidNa
 
 theorem find_files (cfg : Cfg) (fs : FS) (m : Mem) (h : Sim cfg fs m) (n : Bytes) :
     AMap.find fs.files (fpath cfg n) = AMap.find m n := by
-  rw [h.1]; exact AMap.find_mapKey _ (fpath_injective cfg) m n
+  rw [h.1.1]; exact AMap.find_mapKey _ (fpath_injective cfg) m n
+
+/-- in a directory that holds only the keystore's own files, the entry under a key's file name is the
+key file of the map -/
+theorem entry_files (cfg : Cfg) (fs : FS) (m : Mem) (h : Sim cfg fs m) (n : Bytes) :
+    fs.entry (join cfg.dir (encName n)) = (AMap.find m n).map fun d => Foreign.file d true := by
+  have := find_files cfg fs m h n
+  simp only [fpath] at this
+  simp [FS.entry, h.1.2, this]
+
+theorem entry_touch (fs : FS) (p q : Path) : (fs.touch p).entry q = fs.entry q := rfl
 
 theorem not_too_long (cfg : Cfg) (n : Bytes) (h : ValidName cfg n) :
     ¬ (lastComp (join cfg.dir (encName n))).length > cfg.limit := by
@@ -115,9 +139,11 @@ theorem not_too_long (cfg : Cfg) (n : Bytes) (h : ValidName cfg n) :
   rw [this]; exact Nat.not_lt.mpr h.2
 
 theorem list_sim (cfg : Cfg) (m : Mem) :
-    ((AMap.keys (AMap.mapKey (fpath cfg) m)).filterMap (FS.childName cfg.dir)).filterMap decodeName
-      = AMap.keys m := by
+    ((AMap.keys (AMap.mapKey (fpath cfg) m) ++ AMap.keys ([] : AMap.Map Path Foreign)).filterMap
+        (FS.childName cfg.dir)).filterMap decodeName = AMap.keys m := by
   rw [AMap.keys_mapKey]
+  simp only [AMap.keys, List.map_nil, List.append_nil]
+  show ((List.map (fpath cfg) (AMap.keys m)).filterMap (FS.childName cfg.dir)).filterMap decodeName = AMap.keys m
   generalize AMap.keys m = ks
   induction ks with
   | nil => rfl
@@ -126,27 +152,26 @@ theorem list_sim (cfg : Cfg) (m : Mem) :
 
 theorem step_sim (cfg : Cfg) (fs : FS) (m : Mem) (op : Op) (hs : Sim cfg fs m) (hv : ValidOp cfg op) :
     (fsStep cfg fs op).2 = (memStep m op).2 ∧ Sim cfg (fsStep cfg fs op).1 (memStep m op).1 := by
+  have hsim_touch : ∀ p, Sim cfg (fs.touch p) m := fun p => ⟨⟨hs.1.1, hs.1.2⟩, hs.2⟩
   cases op with
   | has n =>
     have hn : ValidName cfg n := hv n rfl
-    have hf := find_files cfg fs m hs n
-    simp only [fpath] at hf
-    simp only [fsStep, memStep, encodeName_eq n hn.1, FS.stat, FS.touch, not_too_long cfg n hn, if_false, hf]
+    have he := entry_files cfg fs m hs n
+    simp only [fsStep, memStep, encodeName_eq n hn.1, FS.stat, entry_touch, not_too_long cfg n hn, if_false, he]
     cases AMap.find m n with
-    | none => exact ⟨rfl, hs⟩
-    | some k => exact ⟨rfl, hs⟩
+    | none => exact ⟨rfl, hsim_touch _⟩
+    | some k => exact ⟨rfl, hsim_touch _⟩
   | put n key =>
     have hn : ValidName cfg n := hv n rfl
-    have hf := find_files cfg fs m hs n
-    simp only [fpath] at hf
-    simp only [fsStep, memStep, encodeName_eq n hn.1, FS.createExcl, FS.touch, not_too_long cfg n hn,
-      if_false, hf, hn.1]
+    have he := entry_files cfg fs m hs n
+    simp only [fsStep, memStep, encodeName_eq n hn.1, FS.createExcl, entry_touch, not_too_long cfg n hn,
+      if_false, he, hn.1]
     cases hfm : AMap.find m n with
-    | some k => exact ⟨rfl, hs⟩
+    | some k => exact ⟨rfl, hsim_touch _⟩
     | none =>
-      refine ⟨rfl, ?_, ?_⟩
+      refine ⟨rfl, ⟨?_, hs.1.2⟩, ?_⟩
       · show AMap.insert fs.files (join cfg.dir (encName n)) key = _
-        rw [hs.1]
+        rw [hs.1.1]
         exact AMap.insert_mapKey (fpath cfg) (fpath_injective cfg) m n key
       · intro n' hn'
         rcases (AMap.mem_keys_insert m n n' key).mp hn' with e | h'
@@ -154,30 +179,30 @@ theorem step_sim (cfg : Cfg) (fs : FS) (m : Mem) (op : Op) (hs : Sim cfg fs m) (
         · exact hs.2 n' h'
   | get n =>
     have hn : ValidName cfg n := hv n rfl
-    have hf := find_files cfg fs m hs n
-    simp only [fpath] at hf
-    simp only [fsStep, memStep, encodeName_eq n hn.1, FS.readFile, FS.touch, not_too_long cfg n hn, if_false, hf]
+    have he := entry_files cfg fs m hs n
+    simp only [fsStep, memStep, encodeName_eq n hn.1, FS.readFile, entry_touch, not_too_long cfg n hn, if_false, he]
     cases AMap.find m n with
-    | none => exact ⟨rfl, hs⟩
-    | some k => exact ⟨rfl, hs⟩
+    | none => exact ⟨rfl, hsim_touch _⟩
+    | some k => exact ⟨rfl, hsim_touch _⟩
   | delete n =>
     have hn : ValidName cfg n := hv n rfl
-    have hf := find_files cfg fs m hs n
-    simp only [fpath] at hf
-    simp only [fsStep, memStep, encodeName_eq n hn.1, FS.remove, FS.touch, not_too_long cfg n hn, if_false, hf]
+    have he := entry_files cfg fs m hs n
+    simp only [fsStep, memStep, encodeName_eq n hn.1, FS.remove, entry_touch, not_too_long cfg n hn, if_false, he]
     cases hfm : AMap.find m n with
-    | none => exact ⟨rfl, hs⟩
+    | none => exact ⟨rfl, hsim_touch _⟩
     | some k =>
-      refine ⟨rfl, ?_, ?_⟩
+      refine ⟨rfl, ⟨?_, ?_⟩, ?_⟩
       · show AMap.erase fs.files (join cfg.dir (encName n)) = _
-        rw [hs.1]
+        rw [hs.1.1]
         exact AMap.erase_mapKey (fpath cfg) (fpath_injective cfg) m n
+      · show AMap.erase fs.foreign (join cfg.dir (encName n)) = []
+        rw [hs.1.2]; rfl
       · intro n' hn'
         exact hs.2 n' ((AMap.mem_keys_erase m n n').mp hn').2
   | list =>
-    simp only [fsStep, memStep, FS.readdirnames, FS.touch]
-    refine ⟨?_, hs⟩
-    rw [hs.1, list_sim]
+    simp only [fsStep, memStep, FS.readdirnames]
+    refine ⟨?_, hsim_touch _⟩
+    rw [hs.1.1, hs.1.2, list_sim]
 
 theorem run_sim (cfg : Cfg) (fs : FS) (m : Mem) (ops : List Op) (hs : Sim cfg fs m)
     (hv : ∀ op ∈ ops, ValidOp cfg op) :
@@ -190,7 +215,7 @@ theorem run_sim (cfg : Cfg) (fs : FS) (m : Mem) (ops : List Op) (hs : Sim cfg fs
     simp only [fsRun, memRun]
     exact ⟨by rw [h1, i1], i2⟩
 
-theorem sim_empty (cfg : Cfg) : Sim cfg {} [] := ⟨rfl, by intro n hn; simp [AMap.keys] at hn⟩
+theorem sim_empty (cfg : Cfg) : Sim cfg {} [] := ⟨⟨rfl, rfl⟩, by intro n hn; simp [AMap.keys] at hn⟩
 
 /-! ### confinement -/
 
@@ -247,9 +272,9 @@ theorem fsStep_fst (cfg : Cfg) (fs : FS) (op : Op) :
     | some e =>
       simp only
       generalize fs.readFile cfg.limit (join cfg.dir e) = r
-      rcases r with ⟨fs', e' | v⟩
+      rcases r with ⟨fs', e' | ⟨d, b⟩⟩
       · cases e' <;> rfl
-      · rfl
+      · cases b <;> rfl
   | delete n =>
     simp only [fsStep]
     cases encodeName n with
@@ -265,38 +290,50 @@ theorem fsStep_fst (cfg : Cfg) (fs : FS) (op : Op) :
 theorem stat_fst (fs : FS) (limit : Nat) (p : Path) : (fs.stat limit p).1 = fs.touch p := by
   unfold FS.stat; dsimp only; split
   · rfl
-  · split <;> rfl
+  · split
+    · rfl
+    · split <;> rfl
+    · rfl
 
 theorem readFile_fst (fs : FS) (limit : Nat) (p : Path) : (fs.readFile limit p).1 = fs.touch p := by
   unfold FS.readFile; dsimp only; split
   · rfl
-  · split <;> rfl
+  · split
+    · rfl
+    · rfl
+    · rfl
+    · split <;> rfl
 
 theorem createExcl_fst (fs : FS) (limit : Nat) (p : Path) (d : Bytes) :
     (fs.createExcl limit p d).1 = fs.touch p ∨
-      (fs.createExcl limit p d).1 = { fs.touch p with files := AMap.insert fs.files p d } := by
+      ((fs.entry p = none) ∧
+        (fs.createExcl limit p d).1 = { fs.touch p with files := AMap.insert fs.files p d }) := by
   unfold FS.createExcl; dsimp only; split
   · exact Or.inl rfl
   · split
     · exact Or.inl rfl
-    · exact Or.inr rfl
+    · rename_i h; exact Or.inr ⟨h, rfl⟩
 
 theorem remove_fst (fs : FS) (limit : Nat) (p : Path) :
     (fs.remove limit p).1 = fs.touch p ∨
-      (fs.remove limit p).1 = { fs.touch p with files := AMap.erase fs.files p } := by
+      (fs.remove limit p).1 =
+        { fs.touch p with files := AMap.erase fs.files p, foreign := AMap.erase fs.foreign p } := by
   unfold FS.remove; dsimp only; split
   · exact Or.inl rfl
   · split
     · exact Or.inr rfl
     · exact Or.inl rfl
 
-/-- every operation touches at most one path: the directory (List) or the key's file -/
+/-- every operation touches at most one path: the directory (List) or the key's file; it creates a
+file only where there was no entry of any kind, and never adds a foreign object -/
 theorem step_effect (cfg : Cfg) (fs : FS) (op : Op) :
     (fsStep cfg fs op).1 = fs ∨
     ∃ p, Confined cfg p ∧ (fsStep cfg fs op).1.touched = p :: fs.touched ∧
-      ((fsStep cfg fs op).1.files = fs.files ∨
-       (∃ d, (fsStep cfg fs op).1.files = AMap.insert fs.files p d) ∨
-       (fsStep cfg fs op).1.files = AMap.erase fs.files p) := by
+      (((fsStep cfg fs op).1.files = fs.files ∧ (fsStep cfg fs op).1.foreign = fs.foreign) ∨
+       (∃ d, fs.entry p = none ∧ (fsStep cfg fs op).1.files = AMap.insert fs.files p d ∧
+          (fsStep cfg fs op).1.foreign = fs.foreign) ∨
+       ((fsStep cfg fs op).1.files = AMap.erase fs.files p ∧
+          (fsStep cfg fs op).1.foreign = AMap.erase fs.foreign p)) := by
   rw [fsStep_fst]
   have enc : ∀ n e, encodeName n = some e → Confined cfg (join cfg.dir e) := by
     intro n e h
@@ -309,30 +346,30 @@ theorem step_effect (cfg : Cfg) (fs : FS) (op : Op) :
     | none => left; simp only [he]
     | some e =>
       right; simp only [he, stat_fst]
-      exact ⟨_, enc n e he, rfl, Or.inl rfl⟩
+      exact ⟨_, enc n e he, rfl, Or.inl ⟨rfl, rfl⟩⟩
   | get n =>
     cases he : encodeName n with
     | none => left; simp only [he]
     | some e =>
       right; simp only [he, readFile_fst]
-      exact ⟨_, enc n e he, rfl, Or.inl rfl⟩
+      exact ⟨_, enc n e he, rfl, Or.inl ⟨rfl, rfl⟩⟩
   | put n k =>
     cases he : encodeName n with
     | none => left; simp only [he]
     | some e =>
       right; simp only [he]
-      rcases createExcl_fst fs cfg.limit (join cfg.dir e) k with h | h
-      · exact ⟨_, enc n e he, by rw [h]; rfl, Or.inl (by rw [h]; rfl)⟩
-      · exact ⟨_, enc n e he, by rw [h]; rfl, Or.inr (Or.inl ⟨k, by rw [h]⟩)⟩
+      rcases createExcl_fst fs cfg.limit (join cfg.dir e) k with h | ⟨hn, h⟩
+      · exact ⟨_, enc n e he, by rw [h]; rfl, Or.inl ⟨by rw [h]; rfl, by rw [h]; rfl⟩⟩
+      · exact ⟨_, enc n e he, by rw [h]; rfl, Or.inr (Or.inl ⟨k, hn, by rw [h], by rw [h]; rfl⟩)⟩
   | delete n =>
     cases he : encodeName n with
     | none => left; simp only [he]
     | some e =>
       right; simp only [he]
       rcases remove_fst fs cfg.limit (join cfg.dir e) with h | h
-      · exact ⟨_, enc n e he, by rw [h]; rfl, Or.inl (by rw [h]; rfl)⟩
-      · exact ⟨_, enc n e he, by rw [h]; rfl, Or.inr (Or.inr (by rw [h]))⟩
-  | list => exact Or.inr ⟨cfg.dir, Or.inl rfl, rfl, Or.inl rfl⟩
+      · exact ⟨_, enc n e he, by rw [h]; rfl, Or.inl ⟨by rw [h]; rfl, by rw [h]; rfl⟩⟩
+      · exact ⟨_, enc n e he, by rw [h]; rfl, Or.inr (Or.inr ⟨by rw [h], by rw [h]⟩)⟩
+  | list => exact Or.inr ⟨cfg.dir, Or.inl rfl, rfl, Or.inl ⟨rfl, rfl⟩⟩
 
 theorem touched_step (cfg : Cfg) (fs : FS) (op : Op) (h : ∀ p ∈ fs.touched, Confined cfg p) :
     ∀ p ∈ (fsStep cfg fs op).1.touched, Confined cfg p := by
@@ -350,25 +387,62 @@ theorem touched_run (cfg : Cfg) (fs : FS) (ops : List Op) (h : ∀ p ∈ fs.touc
   | nil => exact h
   | cons op ops ih => simp only [fsRun]; exact ih _ (touched_step cfg fs op h)
 
-/-- files are only ever created at confined paths -/
-theorem files_step (cfg : Cfg) (fs : FS) (op : Op) (h : ∀ p ∈ AMap.keys fs.files, Confined cfg p) :
-    ∀ p ∈ AMap.keys (fsStep cfg fs op).1.files, Confined cfg p := by
-  rcases step_effect cfg fs op with e | ⟨p0, hc, _, hf | ⟨d, hf⟩ | hf⟩
-  · rw [e]; exact h
-  · rw [hf]; exact h
+/-- files are only ever created at confined paths, whatever the directory contained -/
+theorem files_step (cfg : Cfg) (fs : FS) (op : Op) :
+    ∀ p ∈ AMap.keys (fsStep cfg fs op).1.files, p ∈ AMap.keys fs.files ∨ Confined cfg p := by
+  rcases step_effect cfg fs op with e | ⟨p0, hc, _, ⟨hf, _⟩ | ⟨d, _, hf, _⟩ | ⟨hf, _⟩⟩
+  · rw [e]; exact fun p hp => Or.inl hp
+  · rw [hf]; exact fun p hp => Or.inl hp
   · intro p hp
     rw [hf] at hp
     rcases (AMap.mem_keys_insert _ _ _ _).mp hp with e | hp
-    · rw [e]; exact hc
-    · exact h p hp
+    · rw [e]; exact Or.inr hc
+    · exact Or.inl hp
   · intro p hp
     rw [hf] at hp
-    exact h p ((AMap.mem_keys_erase _ _ _).mp hp).2
+    exact Or.inl ((AMap.mem_keys_erase _ _ _).mp hp).2
 
-theorem files_run (cfg : Cfg) (fs : FS) (ops : List Op) (h : ∀ p ∈ AMap.keys fs.files, Confined cfg p) :
-    ∀ p ∈ AMap.keys (fsRun cfg fs ops).1.files, Confined cfg p := by
+theorem files_run (cfg : Cfg) (fs : FS) (ops : List Op) :
+    ∀ p ∈ AMap.keys (fsRun cfg fs ops).1.files, p ∈ AMap.keys fs.files ∨ Confined cfg p := by
   induction ops generalizing fs with
-  | nil => exact h
-  | cons op ops ih => simp only [fsRun]; exact ih _ (files_step cfg fs op h)
+  | nil => exact fun p hp => Or.inl hp
+  | cons op ops ih =>
+    intro p hp
+    simp only [fsRun] at hp
+    rcases ih _ p hp with h | h
+    · exact files_step cfg fs op p h
+    · exact Or.inr h
+
+/-- the keystore never adds a foreign object (symbolic link, directory, …) anywhere -/
+theorem foreign_step (cfg : Cfg) (fs : FS) (op : Op) :
+    ∀ p ∈ AMap.keys (fsStep cfg fs op).1.foreign, p ∈ AMap.keys fs.foreign := by
+  rcases step_effect cfg fs op with e | ⟨p0, _, _, ⟨_, hf⟩ | ⟨d, _, _, hf⟩ | ⟨_, hf⟩⟩
+  · rw [e]; exact fun p hp => hp
+  · rw [hf]; exact fun p hp => hp
+  · rw [hf]; exact fun p hp => hp
+  · intro p hp
+    rw [hf] at hp
+    exact ((AMap.mem_keys_erase _ _ _).mp hp).2
+
+theorem foreign_run (cfg : Cfg) (fs : FS) (ops : List Op) :
+    ∀ p ∈ AMap.keys (fsRun cfg fs ops).1.foreign, p ∈ AMap.keys fs.foreign := by
+  induction ops generalizing fs with
+  | nil => exact fun p hp => hp
+  | cons op ops ih =>
+    intro p hp
+    simp only [fsRun] at hp
+    exact foreign_step cfg fs op p (ih _ p hp)
+
+/-- `Put` refuses ANY existing directory entry under the key's file name — a dangling symbolic link
+included — and then changes nothing -/
+theorem put_refuses_entry (cfg : Cfg) (fs : FS) (n key : Bytes) (hn : ValidName cfg n)
+    (he : (fs.entry (join cfg.dir (encName n))).isSome = true) :
+    (fsStep cfg fs (.put n key)).2 = .exists ∧ (fsStep cfg fs (.put n key)).1.files = fs.files ∧
+      (fsStep cfg fs (.put n key)).1.foreign = fs.foreign := by
+  cases hent : fs.entry (join cfg.dir (encName n)) with
+  | none => simp [hent] at he
+  | some f =>
+    simp only [fsStep, encodeName_eq n hn.1, FS.createExcl, entry_touch, not_too_long cfg n hn, if_false, hent]
+    exact ⟨trivial, rfl, rfl⟩
 
 end C40
